@@ -156,6 +156,19 @@ impl Report {
     /// Write evidence + replay files, print verdict lines, return the exit code.
     /// `min_checks`: (counter name, minimum) pairs for non-vacuity.
     pub fn finish(&self, min_checks: &[(&str, u64)]) -> i32 {
+        // sanitizer leg: every report printed by a pgcat instance of this run is a violation
+        if let Ok(leg) = std::env::var("PGV_SAN_LEG") {
+            let reports: Vec<_> = crate::pgcat::SAN_REPORTS.lock().unwrap().drain(..).collect();
+            self.count(&format!("sanitizer_{}_instances_watched", leg), crate::pgcat::SAN_INSTANCES.load(std::sync::atomic::Ordering::SeqCst));
+            self.count(&format!("sanitizer_{}_reports", leg), reports.len() as u64);
+            for (kind, func, block) in reports {
+                self.violation(
+                    &format!("{}|sanitizer_report|{}|at={}", self.prop, kind, func),
+                    &format!("{} report from pgcat while running the {} workload: {}", kind, self.prop, block.first().cloned().unwrap_or_default()),
+                    serde_json::json!({"report": block}),
+                );
+            }
+        }
         let g = self.inner.lock().unwrap();
         let root = verif_root();
         let known = load_known(&root, &self.prop);
